@@ -28,7 +28,7 @@ import weakref
 
 import coqrun
 import sigtools
-from sigtools import modifiers, specifiers, wrappers, _signatures
+from sigtools import modifiers, specifiers, support, wrappers, _signatures
 
 LEVEL = 'proof'
 
@@ -1594,6 +1594,220 @@ def _replay_reuse(r):
     return None if fd is None else '%s: %s' % fd
 
 
+# ----------------------------------------------------------------- part 7: forger wrappers on implicitly transformed names
+# __class_getitem__ / __init_subclass__ (implicit classmethods) and __new__
+# (implicit staticmethod) decorated with a forger.  With emulate=True the class
+# attribute is a _ForgerWrapper, which has to emulate the transform Python
+# applies to plain functions of those names.  Every history runs on a FRESH
+# family of classes, so that the very first access of each wrapper object is
+# observed (a subscript, the creation of a subclass, a retrieval); whatever
+# came before, every retrieval advertises the same signature and is bound to
+# the owner it was made on, and every call runs on that owner.  Owner 0 is
+# Base, owner 1 the subclass created last by an `mk` operation (Base before the
+# first one).  Nothing is cached: the model's DWrap kind, owners as instances.
+PVARIANTS = ['fn', 'static', 'fn-noemu']
+P_EXPECT = {'cgi': "(item, flavour='plain', colour=None)", 'isc': "(flavour='plain', colour=None)",
+            'new': "(cls, flavour='plain', colour=None)"}
+P_ATTR = {'cgi': '__class_getitem__', 'isc': '__init_subclass__', 'new': '__new__'}
+POPS = (['ret-%s%d' % (n, o) for n in ('cgi', 'isc', 'new') for o in (0, 1)]
+        + ['%s%d' % (n, o) for n in ('item', 'cgicall', 'mk', 'new', 'isccall') for o in (0, 1)])
+
+
+def _hook(flavour='plain', colour=None):
+    return (flavour, colour)
+
+
+@specifiers.forger_function
+@modifiers.kwoargs('obj')
+def _static_signature(obj, sig):
+    return sig
+
+
+def build_special(variant):
+    seen = []
+    if variant == 'fn':
+        def deco(n):
+            return specifiers.forwards_to_function(_hook, emulate=True)
+    elif variant == 'fn-noemu':
+        def deco(n):
+            return specifiers.forwards_to_function(_hook)
+    else:
+        def deco(n):
+            return _static_signature(support.s(P_EXPECT[n][1:-1]), emulate=True)
+
+    class Base(object):
+        @deco('cgi')
+        def __class_getitem__(cls, item, *args, **kwargs):
+            return (cls, 'item', item, _hook(*args, **kwargs))
+
+        @deco('isc')
+        def __init_subclass__(cls, *args, **kwargs):
+            seen.append((cls, _hook(*args, **kwargs)))
+
+        @deco('new')
+        def __new__(cls, *args, **kwargs):
+            self = object.__new__(cls)
+            self.made = (cls, _hook(*args, **kwargs))
+            return self
+    return Base, seen
+
+
+def run_special(variant, hist):
+    Base, seen = build_special(variant)
+    owners = [Base, Base]
+    touched = set()
+    codes = []
+    finds = []
+    nsub = [0]
+
+    def code(tag, ok):
+        return tag * 1000 + (100 if ok else 0) + 10
+
+    def attempt(f):
+        try:
+            return f()
+        except Exception as e:  # noqa: BLE001
+            return 'raised %s: %s' % (type(e).__name__, e)
+
+    for step, o in enumerate(hist):
+        name = POPS[o]
+        s_ = int(name[-1])
+        kind = name[:-1]
+        own = owners[s_]
+        oname = 'Base' if own is Base else 'the subclass created last'
+        if kind.startswith('ret-'):
+            n = kind[4:]
+            first = n not in touched
+            touched.add(n)
+            where = 'step %d (%s, %s access of the %s attribute in this family)' % (
+                step, name, 'FIRST' if first else 'a later', P_ATTR[n])
+            obj = attempt(lambda: getattr(own, P_ATTR[n]))
+            ok = True
+            if isinstance(obj, str):
+                finds.append(('C18:history', '%s: retrieving %s.%s %s' % (where, oname, P_ATTR[n], obj)))
+                ok = False
+            else:
+                got = attempt(lambda: str(sigtools.signature(obj)))
+                igot = attempt(lambda: str(inspect.signature(obj))) if variant != 'fn-noemu' else got
+                if got != P_EXPECT[n] or igot != got:
+                    finds.append(('C18:history', '%s: %s.%s advertises %s (inspect.signature: %s), every other retrieval gives %s'
+                                  % (where, oname, P_ATTR[n], got, igot, P_EXPECT[n])))
+                    ok = False
+                bs = bound_self(obj)
+                want = None if n == 'new' else own
+                if bs is not want:
+                    finds.append(('C18:binding', '%s: the object retrieved on %s is bound to %s, expected %s' % (
+                        where, oname, 'nothing' if bs is None else ('Base' if bs is Base else repr(bs)),
+                        'nothing (a static method)' if want is None else oname)))
+                    ok = False
+            codes.append(code(2, ok))
+            del obj
+            continue
+        n = {'item': 'cgi', 'cgicall': 'cgi', 'mk': 'isc', 'new': 'new', 'isccall': 'isc'}[kind]
+        first = n not in touched
+        touched.add(n)
+        where = 'step %d (%s, %s access of the %s attribute in this family)' % (
+            step, name, 'FIRST' if first else 'a later', P_ATTR[n])
+        if kind == 'item':
+            r = attempt(lambda: own[step])
+            want = (own, 'item', step, ('plain', None))
+            what = '%s[%d]' % (oname, step)
+        elif kind == 'cgicall':
+            r = attempt(lambda: own.__class_getitem__(step, colour=5))
+            want = (own, 'item', step, ('plain', 5))
+            what = '%s.__class_getitem__(%d, colour=5)' % (oname, step)
+        elif kind == 'new':
+            r = attempt(lambda: own(flavour=step))
+            if not isinstance(r, str):
+                r = (type(r), r.made)
+            want = (own, (own, (step, None)))
+            what = '%s(flavour=%d)' % (oname, step)
+        elif kind == 'isccall':
+            before = len(seen)
+            r = attempt(lambda: own.__init_subclass__(flavour=step))
+            if not isinstance(r, str):
+                r = (r, seen[before:])
+            want = (None, [(own, (step, None))])
+            what = '%s.__init_subclass__(flavour=%d)' % (oname, step)
+        else:
+            before = len(seen)
+            nsub[0] += 1
+            kw = {'flavour': step} if s_ == 0 else {'colour': step}
+            r = attempt(lambda: type(Base)('S%d' % nsub[0], (own,), {}, **kw))
+            what = 'class S%d(%s, %s=%d)' % (nsub[0], oname, list(kw)[0], step)
+            if isinstance(r, str):
+                want = 'the class to be created'
+            else:
+                sub = r
+                r = seen[before:]
+                want = [(sub, _hook(**kw))]
+                owners[1] = sub
+        ok = not isinstance(r, str) and r == want
+        if not ok:
+            finds.append(('C18:history' if isinstance(r, str) else 'C18:binding',
+                          '%s: %s %s, expected %s as on every other access' % (
+                              where, what, r if isinstance(r, str) else 'gave %r' % (r,), want if isinstance(want, str) else repr(want))))
+        codes.append(code(3, ok))
+        del r, want
+    if specifiers.as_forged.currently_computing:
+        finds.append(('C18:guard-leak', 'as_forged.currently_computing is not empty after the history'))
+        specifiers.as_forged.currently_computing.clear()
+    return codes, finds
+
+
+def p_model_op(o):
+    name = POPS[o]
+    return (3 if name.startswith('ret-') else 6) + int(name[-1])
+
+
+def part_special(ctx, rep):
+    rng = ctx.rng('special')
+    n = len(POPS)
+    hs = []
+    for v in PVARIANTS:
+        for L in (1, 2):
+            hs += [(v, h) for h in itertools.product(range(n), repeat=L)]
+        for _ in range(250 if ctx.quick else 4000):
+            hs.append((v, tuple(rng.randrange(n) for _ in range(rng.choice([3, 4, 5, 6])))))
+    cases = []
+    nfirst = 0
+    for v, h in hs:
+        codes, finds = run_special(v, list(h))
+        cases.append((2, tuple(p_model_op(o) for o in h), codes))
+        rep.distinct.add(('special', v, h))
+        seen = set()
+        for key, what in finds:
+            if key in seen:
+                continue
+            seen.add(key)
+            rep.violation(key, 'forger (%s) on __class_getitem__ / __init_subclass__ / __new__ of a fresh class family, history %s: %s' % (
+                {'fn': 'forwards_to_function(hook, emulate=True)', 'static': 'a forger_function decorator with emulate=True',
+                 'fn-noemu': 'forwards_to_function(hook)'}[v], [POPS[o] for o in h], what),
+                {'part': 'special', 'variant': v, 'history': list(h), 'key': key})
+    rep.coverage['special_method_forger_histories'] = len(hs)
+    rep.coverage['special_method_forger_first_op'] = dict(
+        (POPS[o], sum(1 for v, h in hs if h[0] == o)) for o in range(n))
+    cs = coqrun.coq_list(['(%d%%nat, %s, %s)' % (
+        k, coqrun.coq_list(['%d%%nat' % o for o in h]), coqrun.coq_list(['%d' % c for c in codes]))
+        for k, h, codes in cases])
+    pre = COQ_PRE + '\nDefinition HS : list (nat * list nat * list N) := %s.\n' % cs
+    bad = coqrun.parse_nat_list(coqrun.coq_eval(pre, ['bad_hist HS 0'], name='c18special')[0])
+    for i in bad[:5]:
+        rep.corr_break('run_impl DWrap vs forger wrappers on implicitly transformed names',
+                       '%s %s' % (hs[i][0], [POPS[o] for o in hs[i][1]]), 'model observations differ', cases[i][2])
+    return sum(len(h) for v, h in hs)
+
+
+def _replay_special(r):
+    codes, finds = run_special(r['variant'], list(r['history']))
+    for key, what in finds:
+        if r.get('key') is None or key == r['key']:
+            return '%s: forger (%s) on implicitly transformed names, history %s: %s' % (
+                key, r['variant'], [POPS[o] for o in r['history']], what)
+    return None
+
+
+
 # ----------------------------------------------------------------- fixed scenarios
 def posoargs_self_scenario():
     """posoargs('self', 'a') on a method: decoration and class-level use work,
@@ -1615,7 +1829,7 @@ def posoargs_self_scenario():
 
 def run(ctx, rep):
     rep.rule = ('order: one (function, ordered modifier list) whose run is admissible on the implementation; '
-                'history: one (class kind, operation sequence); sibling: one (derived modifier, operation sequence); '
+                'history: one (class kind, operation sequence); sibling: one (derived modifier, operation sequence); special: one (forger variant, operation sequence on a fresh class family); '
                 'reuse: one session = a list of (function, ordered modifier list) applied with decorator objects built once '
                 '(all orders of a set then the first again, one decorator over all functions, mixed sessions)')
     rep.assumptions = [
@@ -1629,7 +1843,8 @@ def run(ctx, rep):
     e4 = part_transient(ctx, rep)
     e5 = part_falsy(ctx, rep)
     e6 = part_reuse(ctx, rep)
-    rep.evaluations = e1 + e2 + e3 + e4 + e5 + e6
+    e7 = part_special(ctx, rep)
+    rep.evaluations = e1 + e2 + e3 + e4 + e5 + e6 + e7
     msg = posoargs_self_scenario()
     if msg:
         rep.violation('C18:posoargs-self-rebind', msg, {'part': 'posoargs-self'})
@@ -1705,6 +1920,8 @@ def replay(ctx, data):
         return _replay_falsy(r)
     if r.get('part') == 'reuse':
         return _replay_reuse(r)
+    if r.get('part') == 'special':
+        return _replay_special(r)
     if r.get('part') == 'posoargs-self':
         return posoargs_self_scenario()
     return None
